@@ -5,6 +5,7 @@ mod util;
 mod checks;
 mod data;
 mod httpd;
+mod prom;
 
 use std::path::{Path, PathBuf};
 use std::process::{Command, Stdio};
